@@ -792,6 +792,7 @@ type replGenParams struct {
 	pSameTerm     int // % of cases starting with the same-term divergent-tail template
 	pUnkeyed      int // % of cases on MessageDB with server-allocated, unkeyed records (cap 1)
 	pStaleBatch   int // % of cases: the batched-replay + deposed-leader template on that store kind
+	pOlderFence   int // % of cases: write under (e,t,f+1), restart the owner, install (e,t,f)
 }
 
 type replAuth struct{ e, t, f uint64 }
@@ -1267,6 +1268,33 @@ func replGenCase(g *Gen, p replGenParams) {
 	s.ready = make([]bool, s.n)
 	s.lastCmd = make([][3]int, s.n)
 	nops := g.R.Range(4, p.maxOps)
+	if g.R.Chance(p.pOlderFence) {
+		// directed family: the durable tail is written under (e,t,f+1); the owner restarts (its memory of
+		// authorities is gone) and is asked to install (e,t,f) or (e,t,f+2): same epoch and term, so the
+		// barrier's comparison against the durable tail is the only thing that can refuse
+		g.Count("case:restart-then-same-term-other-fence")
+		l := 1 + g.R.Intn(s.n)
+		a := replAuth{1, uint64(g.R.Range(1, 2)), 2}
+		s.owner[a] = l
+		s.last[l-1], s.top, s.leader = a, a, l
+		g.Op("install", "%d %d %d %d 0 %d %s %s", l, a.e, a.t, a.f, s.q, s.all('1'), s.all('D'))
+		s.nextCmd++
+		s.cmds = append(s.cmds, [3]int{s.nextCmd, 1, 0})
+		g.Op("commit", "%d %d %d %d %d 1 0 %s", l, a.e, a.t, a.f, s.nextCmd, s.all('D'))
+		g.Op("crash", "%d", l)
+		g.Op("restart", "%d", l)
+		b := a
+		if g.R.Chance(70) {
+			b.f--
+		} else {
+			b.f++
+		}
+		s.owner[b] = l
+		g.Op("install", "%d %d %d %d 0 %d %s %s", l, b.e, b.t, b.f, s.q, s.all('1'), s.all('D'))
+		s.nextCmd++
+		g.Op("commit", "%d %d %d %d %d 1 0 %s", l, b.e, b.t, b.f, s.nextCmd, s.all('D'))
+		s.records += 2
+	}
 	if sameTerm {
 		// directed family: two authorities sharing a leader term (fence-only or epoch-only bump over an
 		// empty quorum log) write different entries at offset 1; a follower keeps the old one and is then
